@@ -96,7 +96,10 @@ func c06R1(c *Ctx) {
 // c06BlobRemovalExclusive: in the methods of oci.Store, removing blobs
 // (storage.Delete, os.Remove) happens only with s.sync held exclusively,
 // locally or in every static caller (Delete -> delete).
-func c06BlobRemovalExclusive(c *Ctx, R string) {
+// c06StoreLockHeld returns a decision procedure: is <receiver>.sync held in
+// W mode at instruction `at` of method f of oci.Store — locally, or at every
+// static call site of f (transitively, unexported helpers only)?
+func c06StoreLockHeld(c *Ctx) func(f *ssa.Function, at ssa.Instruction, depth int) (bool, string) {
 	fns := c.P.FuncsOfPkg("content/oci")
 	heldC := map[*ssa.Function]map[ssa.Instruction]heldSet{}
 	held := func(f *ssa.Function) map[ssa.Instruction]heldSet {
@@ -145,6 +148,12 @@ func c06BlobRemovalExclusive(c *Ctx, R string) {
 		}
 		return true, ""
 	}
+	return holds
+}
+
+func c06BlobRemovalExclusive(c *Ctx, R string) {
+	fns := c.P.FuncsOfPkg("content/oci")
+	holds := c06StoreLockHeld(c)
 	n := 0
 	for _, f := range fns {
 		if f.Signature.Recv() == nil || !strings.HasSuffix(f.Signature.Recv().Type().String(), "content/oci.Store") {
@@ -172,6 +181,7 @@ func c06UnsafeStore(c *Ctx, R string) {
 		return
 	}
 	n := 0
+	holds := c06StoreLockHeld(c)
 	for _, f := range c05ModuleFuncs(c.P) {
 		var held map[ssa.Instruction]heldSet
 		AllInstrs(f, func(in ssa.Instruction) {
@@ -222,9 +232,20 @@ func c06UnsafeStore(c *Ctx, R string) {
 				return
 			}
 			lp := accessPath(inner) + ".sync"
-			ok = held[al][lp] >= modeW && escapes == ""
+			heldHere := func(at ssa.Instruction) bool {
+				if held[at][lp] >= modeW {
+					return true
+				}
+				// an unexported helper of the store: every caller holds the lock on the same store
+				if len(f.Params) > 0 && strip(inner) == ssa.Value(f.Params[0]) {
+					ok, _ := holds(f, at, 0)
+					return ok
+				}
+				return false
+			}
+			ok = heldHere(al) && escapes == ""
 			for _, u := range uses {
-				if held[u][lp] < modeW {
+				if !heldHere(u) {
 					ok = false
 				}
 			}
